@@ -814,9 +814,24 @@ fn eval_case_inner(line: &str) -> String {
             }
             format!("{}# {}", out, str_pages(s.pages()))
         }
-        "BUS" => {
+        "BUS" | "BUSP" => {
             let k: usize = num(t[1]);
-            let (signs, msgs) = parse_signs(k, &t[2..]);
+            let (mut signs, rest) = parse_signs(k, &t[2..]);
+            // BUSP: "i~msg" tokens before the bar are given to sign i ALONE, before the bus is made of the signs
+            let msgs: &[&str] = if t[0] == "BUSP" {
+                let bar = rest.iter().position(|x| *x == "|").expect("BUSP needs |");
+                for tok in &rest[..bar] {
+                    let (i, m) = tok.split_once('~').expect("BUSP i~msg");
+                    let msg = msg_of_str(m);
+                    let i: usize = i.parse().unwrap();
+                    if guarded(|| signs[i].process_message(&msg)).is_none() {
+                        return "PANIC-PRIOR".to_string();
+                    }
+                }
+                &rest[bar + 1..]
+            } else {
+                rest
+            };
             let mut bus = VirtualSignBus::new(signs);
             let mut out = String::new();
             // through the SignBus trait, as Sign and Odk reach a bus (the walk's monitors call the bus directly)
